@@ -1,0 +1,36 @@
+//go:build verif
+
+// Contracts for deductive verification (read by /verif/govc). Comment-only: this file adds no code.
+package order
+
+// InitGenesis imports the order module's state; with pairwise distinct ids every listed record is stored as listed
+//@ func InitGenesis(ctx, k, genState)
+//@   modifies *
+//@   nopanic [C02.genesis.order.nopanic]
+//@   ensures [C18.init.order.order] (forall a int, b int :: 0 <= a && a < b && b < len(genState.OrderList) ==> genState.OrderList[a].Id != genState.OrderList[b].Id) ==>
+//@       forall j int :: 0 <= j && j < len(genState.OrderList) ==> has(Order, genState.OrderList[j].Id) && Order[genState.OrderList[j].Id] == genState.OrderList[j]
+//@   ensures [C18.init.order.shard] (forall a int, b int :: 0 <= a && a < b && b < len(genState.ShardList) ==> genState.ShardList[a].Id != genState.ShardList[b].Id) ==>
+//@       forall j int :: 0 <= j && j < len(genState.ShardList) ==> has(Shard, genState.ShardList[j].Id) && Shard[genState.ShardList[j].Id] == genState.ShardList[j]
+//@   ensures [C18.init.order.counts] effOrderCount(get(OrderCount)) == (genState.OrderCount == 0 ? 1 : genState.OrderCount) && effShardCount(get(ShardCount)) == genState.ShardCount
+//@   loop L1 invariant -1 <= rangeindex && rangeindex < len(genState0.OrderList)
+//@   loop L1 invariant (forall a int, b int :: 0 <= a && a < b && b < len(genState0.OrderList) ==> genState0.OrderList[a].Id != genState0.OrderList[b].Id) ==>
+//@       forall j int :: 0 <= j && j <= rangeindex ==> has(Order, genState0.OrderList[j].Id) && Order[genState0.OrderList[j].Id] == genState0.OrderList[j]
+//@   loop L1 decreases [C02.genesis.term] len(genState0.OrderList) - rangeindex
+//@   loop L2 invariant -1 <= rangeindex && rangeindex < len(genState0.ShardList)
+//@   loop L2 invariant (forall a int, b int :: 0 <= a && a < b && b < len(genState0.ShardList) ==> genState0.ShardList[a].Id != genState0.ShardList[b].Id) ==>
+//@       forall j int :: 0 <= j && j <= rangeindex ==> has(Shard, genState0.ShardList[j].Id) && Shard[genState0.ShardList[j].Id] == genState0.ShardList[j]
+//@   loop L2 decreases [C02.genesis.term] len(genState0.ShardList) - rangeindex
+//@   loop L2 invariant forall c int :: 0 <= c && c <= MaxUint64 ==> Order[c] == entry(Order[c]) && (has(Order, c) <==> entry(has(Order, c)))
+//@   loop L2 invariant get(OrderCount) == entry(get(OrderCount))
+
+// ExportGenesis lists every order and shard exactly as stored, and the two id counters
+//@ func ExportGenesis(ctx, k) (genesis)
+//@   modifies nothing
+//@   ensures [C18.export.order.nonnil] genesis != nil
+//@   ensures [C18.export.order.order] (forall c int :: 0 <= c && c <= MaxUint64 && has(Order, c) ==> contains(genesis.OrderList, Order[c]))
+//@       && (forall j int :: 0 <= j && j < len(genesis.OrderList) ==> has(Order, genesis.OrderList[j].Id) && Order[genesis.OrderList[j].Id] == genesis.OrderList[j])
+//@       && (forall a int, b int :: 0 <= a && a < b && b < len(genesis.OrderList) ==> genesis.OrderList[a].Id != genesis.OrderList[b].Id)
+//@   ensures [C18.export.order.shard] (forall c int :: 0 <= c && c <= MaxUint64 && has(Shard, c) ==> contains(genesis.ShardList, Shard[c]))
+//@       && (forall j int :: 0 <= j && j < len(genesis.ShardList) ==> has(Shard, genesis.ShardList[j].Id) && Shard[genesis.ShardList[j].Id] == genesis.ShardList[j])
+//@       && (forall a int, b int :: 0 <= a && a < b && b < len(genesis.ShardList) ==> genesis.ShardList[a].Id != genesis.ShardList[b].Id)
+//@   ensures [C18.export.order.counts] genesis.OrderCount == effOrderCount(get(OrderCount)) && genesis.ShardCount == effShardCount(get(ShardCount))
